@@ -395,7 +395,9 @@ def scan_sources():
 
 def audit(pid, theorems, imp="PsecModel"):
     """Run `#print axioms` for every theorem of the property. Returns dict with obligations/discharged/details."""
-    lines = [f"import {imp}"] + [f"#print axioms {t}" for t in theorems]
+    imps = [imp] if isinstance(imp, str) else list(imp)
+    lines = [f"import {i}" for i in imps] + [f"#print axioms {t}" for t in theorems]
+    imp = " ".join(imps)
     src = "\n".join(lines) + "\n"
     path = os.path.join(LEAN_DIR, ".lake", f"audit_{pid}.lean")
     os.makedirs(os.path.dirname(path), exist_ok=True)
@@ -457,7 +459,7 @@ def import_cone(module):
 def leanchecker(module):
     """thorough tier: replay every declaration of the property's import cone (project modules) through the independent
     checker `leanchecker` (lean4checker). Returns dict(rc, modules, wall_s, tail)."""
-    mods = import_cone(module)
+    mods = sorted(set(m for mod_ in ([module] if isinstance(module, str) else module) for m in import_cone(mod_)))
     t0 = time.time()
     try:
         p = subprocess.run(["lake", "env", "leanchecker"] + mods, cwd=LEAN_DIR, capture_output=True, text=True, timeout=3000)
